@@ -1,6 +1,7 @@
 package props
 
 import (
+	"fmt"
 	"go/ast"
 	"go/constant"
 	"go/types"
@@ -16,7 +17,9 @@ func c11(p *core.Program, r *core.Report) {
 	r.Rule("R2", "set/clear request symmetry: a function that builds several ImportRoaringRequest values addresses them to the same view key expression")
 	r.Rule("R4", "same-view plumbing: composing the sender's view-to-key function (the callee used in the Views key) with the receiver's key-to-view mapping (the code that rewrites the range key over ImportRoaringRequest.Views) is the identity on every class of view name (standard, standard_<time>, bsig_<field>), evaluated over abstract string shapes")
 	r.Rule("R5", "iterator end-of-data discipline: every call of a (rowID, columnID, eof) or (value, eof) iterator method (Next/Peek) in package pilosa that uses the returned position also binds the eof result and reads it; an exhausted iterator returns the zero position, which is a real bit (row 0, column 0)")
-	r.NotDecided = "the merge loop's iterator arithmetic and the majority vote for all contents; convergence of checksums after a pass"
+	r.Rule("R6", "one block, one extent: the positions fragment.mergeBlock admits into the vote for block id (the limit it puts on its iterators, read with the limit iterator's own comparison: inclusive or exclusive) are exactly the positions fragment.blockData(id) ships to the other replicas, [id*HashBlockSize*ShardWidth, (id+1)*HashBlockSize*ShardWidth); both are evaluated as linear forms in id")
+	c11BlockExtent(p, r)
+	r.NotDecided = "the majority vote itself for all contents (the merge loop's iteration); convergence of checksums after a pass"
 	pk := p.Pkg("")
 	if pk == nil {
 		r.Undecide("R1", "package pilosa", "", "not loaded")
@@ -294,4 +297,192 @@ func c11(p *core.Program, r *core.Report) {
 		}
 	}
 	_ = strings.TrimSpace
+}
+
+// lin1 is a*id + b.
+type lin1 struct{ a, b int64 }
+
+// c11Lin evaluates an integer expression as a linear form in the identifier idObj.
+func c11Lin(info *types.Info, e ast.Expr, idObj types.Object, env map[types.Object]lin1) (lin1, bool) {
+	if tv, ok := info.Types[e]; ok && tv.Value != nil && tv.Value.Kind() == constant.Int {
+		if v, ok := constant.Int64Val(tv.Value); ok {
+			return lin1{0, v}, true
+		}
+	}
+	switch x := ast.Unparen(e).(type) {
+	case *ast.Ident:
+		o := info.ObjectOf(x)
+		if o == idObj {
+			return lin1{1, 0}, true
+		}
+		if l, ok := env[o]; ok {
+			return l, true
+		}
+	case *ast.CallExpr:
+		if tv, ok := info.Types[x.Fun]; ok && tv.IsType() && len(x.Args) == 1 {
+			return c11Lin(info, x.Args[0], idObj, env)
+		}
+	case *ast.BinaryExpr:
+		l, ok1 := c11Lin(info, x.X, idObj, env)
+		r, ok2 := c11Lin(info, x.Y, idObj, env)
+		if !ok1 || !ok2 {
+			return lin1{}, false
+		}
+		switch x.Op.String() {
+		case "+":
+			return lin1{l.a + r.a, l.b + r.b}, true
+		case "-":
+			return lin1{l.a - r.a, l.b - r.b}, true
+		case "*":
+			if l.a == 0 {
+				return lin1{l.b * r.a, l.b * r.b}, true
+			}
+			if r.a == 0 {
+				return lin1{l.a * r.b, l.b * r.b}, true
+			}
+		}
+	}
+	return lin1{}, false
+}
+
+// c11BlockExtent: R6.
+func c11BlockExtent(p *core.Program, r *core.Report) {
+	pk := p.Pkg("")
+	info := pk.TypesInfo
+	construct := "mergeBlock / blockData extent"
+	mb := core.FuncDecl(pk, "fragment", "mergeBlock")
+	bd := core.FuncDecl(pk, "fragment", "blockData")
+	ln := core.FuncDecl(pk, "limitIterator", "Next")
+	if mb == nil || bd == nil || ln == nil {
+		r.Undecide("R6", construct, "", "mergeBlock, blockData or limitIterator.Next not found")
+		return
+	}
+	cst := func(name string) (int64, bool) {
+		c, ok := pk.Types.Scope().Lookup(name).(*types.Const)
+		if !ok {
+			return 0, false
+		}
+		return constant.Int64Val(constant.ToInt(c.Val()))
+	}
+	H, ok1 := cst("HashBlockSize")
+	W, ok2 := cst("ShardWidth")
+	if !ok1 || !ok2 {
+		r.Undecide("R6", construct, "", "HashBlockSize/ShardWidth not constants")
+		return
+	}
+	firstParam := func(fd *ast.FuncDecl) types.Object {
+		if len(fd.Type.Params.List) > 0 && len(fd.Type.Params.List[0].Names) > 0 {
+			return info.Defs[fd.Type.Params.List[0].Names[0]]
+		}
+		return nil
+	}
+	// blockData: the ForEachRange bounds
+	var lo, hi lin1
+	found := false
+	idB := firstParam(bd)
+	ast.Inspect(bd.Body, func(n ast.Node) bool {
+		c, ok := n.(*ast.CallExpr)
+		if !ok || len(c.Args) < 2 {
+			return true
+		}
+		if fn := core.CalleeOf(info, c); fn != nil && fn.Name() == "ForEachRange" {
+			l, okl := c11Lin(info, c.Args[0], idB, nil)
+			h, okh := c11Lin(info, c.Args[1], idB, nil)
+			if okl && okh {
+				lo, hi, found = l, h, true
+			}
+		}
+		return true
+	})
+	if !found {
+		r.Undecide("R6", construct, p.Pos(bd.Pos()), "blockData's range bounds are not linear in the block id")
+		return
+	}
+	// mergeBlock: the arguments of newLimitIterator, through local definitions
+	idM := firstParam(mb)
+	env := map[types.Object]lin1{}
+	ast.Inspect(mb.Body, func(n ast.Node) bool {
+		if as, ok := n.(*ast.AssignStmt); ok && len(as.Lhs) == len(as.Rhs) {
+			for i, l := range as.Lhs {
+				if id, ok := ast.Unparen(l).(*ast.Ident); ok {
+					if v, ok := c11Lin(info, as.Rhs[i], idM, env); ok {
+						env[info.ObjectOf(id)] = v
+					}
+				}
+			}
+		}
+		return true
+	})
+	type lim struct{ row, col lin1 }
+	var lims []lim
+	undec := ""
+	ast.Inspect(mb.Body, func(n ast.Node) bool {
+		c, ok := n.(*ast.CallExpr)
+		if !ok || len(c.Args) != 3 {
+			return true
+		}
+		if fn := core.CalleeOf(info, c); fn != nil && fn.Name() == "newLimitIterator" {
+			rw, ok1 := c11Lin(info, c.Args[1], idM, env)
+			cl, ok2 := c11Lin(info, c.Args[2], idM, env)
+			if !ok1 || !ok2 {
+				undec = "a limit passed to newLimitIterator is not linear in the block id"
+				return true
+			}
+			lims = append(lims, lim{rw, cl})
+		}
+		return true
+	})
+	if undec != "" || len(lims) == 0 {
+		if undec == "" {
+			undec = "no newLimitIterator call in mergeBlock"
+		}
+		r.Undecide("R6", construct, p.Pos(mb.Pos()), undec)
+		return
+	}
+	// the limit iterator's comparison: `columnID > max` (inclusive limit) or `>=` (exclusive)
+	inclusive, decided := false, false
+	ast.Inspect(ln.Body, func(n ast.Node) bool {
+		be, ok := n.(*ast.BinaryExpr)
+		if !ok {
+			return true
+		}
+		if sel, ok := ast.Unparen(be.Y).(*ast.SelectorExpr); ok && sel.Sel.Name == "maxColumnID" {
+			switch be.Op.String() {
+			case ">":
+				inclusive, decided = true, true
+			case ">=":
+				inclusive, decided = false, true
+			}
+		}
+		return true
+	})
+	if !decided {
+		r.Undecide("R6", construct, p.Pos(ln.Pos()), "limitIterator.Next does not compare the column with maxColumnID by > or >=")
+		return
+	}
+	okAll := true
+	detail := ""
+	for _, l := range lims {
+		// last admitted position (inclusive) or first refused one (exclusive), as a*id+b
+		pos := lin1{l.row.a*W + l.col.a, l.row.b*W + l.col.b}
+		want := hi
+		if inclusive {
+			want = lin1{hi.a, hi.b - 1}
+		}
+		if l.col.a != 0 || pos != want {
+			okAll = false
+			detail = fmt.Sprintf("mergeBlock limits its iterators at row %d*id%+d, column %d (%s), i.e. position %d*id%+d, but blockData ships positions up to %d*id%+d (exclusive): the vote for a block includes %s than the block",
+				l.row.a, l.row.b, l.col.b, map[bool]string{true: "inclusive", false: "exclusive"}[inclusive], pos.a, pos.b, hi.a, hi.b, map[bool]string{true: "more", false: "less"}[pos.a > want.a || (pos.a == want.a && pos.b > want.b)])
+		}
+	}
+	// the lower end: both start at id*H*W (mergeBlock seeks to row id*H, column 0)
+	if lo != (lin1{H * W, 0}) {
+		okAll = false
+		detail = fmt.Sprintf("blockData starts at %d*id%+d, not at the block's first position", lo.a, lo.b)
+	}
+	if okAll {
+		r.HoldAt("R6", construct, p.Pos(mb.Pos()), fmt.Sprintf("both cover [%d*id, %d*id%+d) (%d iterator limits, %s comparison)", lo.a, hi.a, hi.b, len(lims), map[bool]string{true: "inclusive", false: "exclusive"}[inclusive]))
+	} else {
+		r.Violate("R6", construct, p.Pos(mb.Pos()), detail+" -- bits of a neighbouring block are voted on with only the local replica's view of them")
+	}
 }
